@@ -1563,6 +1563,11 @@ class Stage:
         cat = vcat if transpose else hcat
         res = cat(sub_expr)
         time = stage._method.control_grid
+        # One time entry per sampled point
+        if not include_last:
+            time = time[:-1]
+        if not include_first:
+            time = time[1:]
         return time, res
 
     def _grid_integrator(self, stage, expr, grid, include_first=True, include_last=True):
